@@ -9,6 +9,7 @@ import (
 	"bytes"
 	"encoding/hex"
 	"encoding/json"
+	"errors"
 	"fmt"
 	"os"
 	"runtime/debug"
@@ -242,6 +243,124 @@ func (cs *consStub) SwitchToConsensus(state sm.State, skipWAL bool) {
 	close(h.handCh)
 }
 
+// ---- the hook between verification and application (class "gap")
+
+// hookEvPool is the evidence pool of the node's executor: empty, but ValidateBlock calls its
+// CheckEvidence as the last thing of the reactor's verify step, which is where the harness steps in.
+type hookEvPool struct {
+	sm.EmptyEvidencePool
+	h *harness
+}
+
+func (p hookEvPool) CheckEvidence(types.EvidenceList) error {
+	h := p.h
+	if h.node == nil || h.node.blockStore == nil || h.node.app == nil {
+		return nil
+	}
+	// ApplyBlock validates once more, after the block was saved and before it is executed: then the
+	// application is one block behind the store.  In the verify step the two are level.
+	if s := h.node.blockStore.Height(); h.node.app.Height() == s {
+		h.gapHook("ValidateBlock (evidence pool callback)", s+1)
+	}
+	return nil
+}
+
+func (h *harness) isGapHeight(ht int64) bool {
+	for _, g := range h.sc.GapHeights {
+		if g == ht {
+			return true
+		}
+	}
+	return false
+}
+
+// gapHook runs inside the node's own sync routine, after it has verified block ht and before it has
+// saved / applied it (v0: ValidateBlock's evidence callback; v1, v2: the block store's first write for ht).
+func (h *harness) gapHook(site string, ht int64) {
+	if atomic.LoadInt32(&h.gapArmed) == 0 || !h.isGapHeight(ht) {
+		return
+	}
+	h.mu.Lock()
+	if h.gapDone[ht] {
+		h.mu.Unlock()
+		return
+	}
+	h.gapDone[ht] = true
+	h.mu.Unlock()
+	seq := h.log.add("gap_hook", "", ht, site)
+	done := make(chan struct{})
+	go func() {
+		defer close(done)
+		// who delivered the block that has just been verified
+		p1 := -1
+		for k := 0; k < 20 && p1 < 0; k++ {
+			evs := h.log.snapshot()
+			for i := len(evs) - 1; i >= 0; i-- {
+				if evs[i].Kind == "block_delivered" && evs[i].H == ht && evs[i].Info == "canonical" {
+					for j := range h.sc.Peers {
+						if h.sc.Peers[j].Name == evs[i].Who {
+							p1 = j
+						}
+					}
+					break
+				}
+			}
+			if p1 < 0 {
+				time.Sleep(5 * time.Millisecond)
+			}
+		}
+		if p1 < 0 {
+			h.log.add("gap_hook_no_deliverer", "", ht, "")
+			return
+		}
+		// the lying peer is there and known to the pool before the deliverer goes
+		z := -1
+		for j := range h.sc.Peers {
+			if h.sc.Peers[j].HookAt == ht {
+				z = j
+			}
+		}
+		if z >= 0 {
+			p2p.Connect2Switches([]*p2p.Switch{h.node.sw, h.peerSw[z]}, 0, 1)
+			for k := 0; k < 200 && !h.logHas(seq, "status_delivered", h.sc.Peers[z].Name, 0); k++ {
+				time.Sleep(5 * time.Millisecond)
+			}
+		}
+		if peer := h.node.sw.Peers().Get(h.peerIDs[p1]); peer != nil {
+			h.log.add("gap_remove_deliverer", h.sc.Peers[p1].Name, ht, "")
+			h.node.sw.StopPeerForError(peer, errors.New("c13 harness: peer lost between verification and application"))
+		}
+		if z < 0 {
+			time.Sleep(50 * time.Millisecond) // the requester's slot is reset; nobody refills it
+			h.log.add("gap_slot_left_empty", "", ht, "")
+			return
+		}
+		for k := 0; k < 400; k++ { // until the node's reactor has taken the substitute (2 s at most)
+			if h.logHas(seq, "block_delivered", h.sc.Peers[z].Name, ht) {
+				h.log.add("gap_substitute_recorded", h.sc.Peers[z].Name, ht, "")
+				return
+			}
+			time.Sleep(5 * time.Millisecond)
+		}
+		h.log.add("gap_substitute_not_delivered", h.sc.Peers[z].Name, ht, "")
+	}()
+	select {
+	case <-done:
+	case <-time.After(5 * time.Second):
+		h.log.add("gap_hook_timed_out", "", ht, "")
+	}
+}
+
+func (h *harness) logHas(after int, kind, who string, ht int64) bool {
+	evs := h.log.snapshot()
+	for i := len(evs) - 1; i >= 0 && evs[i].Seq > after; i-- {
+		if evs[i].Kind == kind && evs[i].Who == who && (ht == 0 || evs[i].H == ht) {
+			return true
+		}
+	}
+	return false
+}
+
 // ---- node
 
 type node struct {
@@ -286,6 +405,8 @@ type harness struct {
 	lastAct      map[int]int64
 	quiet        map[int]int
 	stallCh      chan string
+	gapArmed     int32
+	gapDone      map[int64]bool
 }
 
 func (h *harness) indexOf(id p2p.ID) int {
@@ -401,6 +522,14 @@ func (h *harness) buildNode() {
 	n.stateStore = sm.NewStore(dbm.NewMemDB(), sm.StoreOptions{})
 	bdb := &monDB{DB: dbm.NewMemDB()}
 	bdb.onSet = func(k, v []byte) {
+		if bytes.HasPrefix(k, []byte("P:")) {
+			var ht int64
+			var idx int
+			if _, err := fmt.Sscanf(string(k), "P:%d:%d", &ht, &idx); err == nil && idx == 0 {
+				h.gapHook("block store's first write", ht)
+			}
+			return
+		}
 		if !bytes.HasPrefix(k, []byte("H:")) {
 			return
 		}
@@ -455,7 +584,7 @@ func (h *harness) buildNode() {
 	}
 	n.app.InitChain(chaingen.InitChainReq(w.c.GenDoc))
 	nodeLog := capLogger{l: h.log, prefix: "node"}
-	n.exec = sm.NewBlockExecutor(n.stateStore, log.NewNopLogger(), n.conns.Consensus(), mock.Mempool{}, sm.EmptyEvidencePool{})
+	n.exec = sm.NewBlockExecutor(n.stateStore, log.NewNopLogger(), n.conns.Consensus(), mock.Mempool{}, hookEvPool{h: h})
 	// the node's own earlier history: canonical blocks it applied itself before this sync
 	for ht := w.first; sc.NodeStart > 0 && ht <= sc.NodeStart; ht++ {
 		rec := w.rec(ht)
@@ -572,7 +701,7 @@ func (h *harness) checkCommit(ht int64, which string, cm *types.Commit) CommitCh
 func runScenario(sc *Scenario, w *world) *Result {
 	start := time.Now()
 	h := &harness{sc: sc, w: w, log: &evlog{}, handCh: make(chan struct{}), reconnects: map[string]int{}, maxReconnect: 6,
-		reqs: make([]int32, len(sc.Peers)), answered: make([]int32, len(sc.Peers)), lastAct: map[int]int64{}, quiet: map[int]int{}, stallCh: make(chan string, 1)}
+		reqs: make([]int32, len(sc.Peers)), answered: make([]int32, len(sc.Peers)), lastAct: map[int]int64{}, quiet: map[int]int{}, stallCh: make(chan string, 1), gapDone: map[int64]bool{}}
 	dropBound := int32(12)
 	if sc.Class == "long" {
 		h.maxReconnect, dropBound = 60, 150
@@ -589,6 +718,7 @@ func runScenario(sc *Scenario, w *world) *Result {
 		h.peerSw = append(h.peerSw, sw)
 		h.peerIDs = append(h.peerIDs, id)
 	}
+	atomic.StoreInt32(&h.gapArmed, 1)
 	if err := h.node.sw.Start(); err != nil {
 		panic(err)
 	}
@@ -746,6 +876,9 @@ func runScenario(sc *Scenario, w *world) *Result {
 	// The pool can lose a request when a peer is removed between being picked and being recorded
 	// by the requester; only its 30 s request retry recovers that, so the watchdog sits above it.
 	wd := 42 * time.Second
+	if sc.Version != "v0" {
+		wd = 25 * time.Second // v1 / v2 have no 30 s retry; their own timeouts are 10-15 s
+	}
 	if sc.Timeouts {
 		wd = 65 * time.Second
 	}
@@ -883,7 +1016,9 @@ func (h *harness) evaluate(res *Result) {
 				p.Delivered++
 				if e.Info != "canonical" {
 					p.BadDelivered = append(p.BadDelivered, e.H)
-					if asked[e.Who][e.H] {
+					// (not at a gap height: there the harness lets the substitute arrive after the node has
+					// already verified another block for that height, and the node never looks at it)
+					if asked[e.Who][e.H] && !h.isGapHeight(e.H) {
 						p.AnsweredBadAsked = append(p.AnsweredBadAsked, e.H)
 					}
 				}
@@ -1030,6 +1165,11 @@ func (h *harness) evaluate(res *Result) {
 		}
 		if res.LastSeen != nil && (!res.LastSeen.AllValid || !res.LastSeen.AddrOK) {
 			res.Counts["last_seen_invalid_without_handover"]++
+		}
+	}
+	for _, e := range evs {
+		if strings.HasPrefix(e.Kind, "gap_") {
+			res.Counts["gap."+strings.TrimPrefix(e.Kind, "gap_")]++
 		}
 	}
 	// keep the witness readable
